@@ -489,8 +489,17 @@ func (c *compiler) compileQueryUpdate(l, r *Query, op Operator) error {
 			v := c.newVariable()
 			c.append(&code{op: opstore, v: v})
 			c.append(&code{op: opload, v: v})
+			// the value is not a part of the path (ref: _assign)
+			c.append(&code{op: opexpbegin})
 			if err := c.compileQuery(r); err != nil {
 				return err
+			}
+			if i := len(c.codes) - 1; c.codes[i-1].op == opexpbegin &&
+				(c.codes[i].op == opconst || c.codes[i].op == oppush) {
+				c.codes[i-1] = c.codes[i]
+				c.codes = c.codes[:i]
+			} else {
+				c.append(&code{op: opexpend})
 			}
 			c.append(&code{op: oppush, v: xs})
 			c.append(&code{op: opload, v: v})
